@@ -659,3 +659,174 @@ func checkC08Isolation(op string) *evid.Fail {
 }
 
 func init() { regReplay("C08.isolation", checkC08Isolation) }
+
+// ---------------------------------------------------------------------------------------
+// One function collection and one manager over a history of calls whose arguments are objects the caller keeps and
+// reassigns in place between the calls, or results of earlier calls; every call against the function reference, every
+// result handed out earlier keeps its value (a function that writes into a converted argument, a result object that
+// is handed out twice, a table entry that remembers its last call).
+
+type c08HStep struct {
+	Name  string `json:"name"`
+	Args  []int  `json:"args"` // sources: 0..2 = the caller's objects X, Y, Z; 3 = a fresh variant from Fresh; 4+k = the k-th kept result
+	Set   *val   `json:"set,omitempty"`
+	Slot  int    `json:"slot"`
+	Fresh val    `json:"fresh"`
+}
+
+type c08HistCase struct {
+	Safe  bool       `json:"safe"`
+	Init  []val      `json:"init"`
+	Steps []c08HStep `json:"steps"`
+}
+
+func checkC08Hist(c c08HistCase) *evid.Fail {
+	ops := opsManager(c.Safe)
+	fc := functions.NewDefaultFunctionCollection()
+	slots := make([]*variants.Variant, 3)
+	model := make([]val, 3)
+	for i := range slots {
+		model[i] = vNull()
+		if i < len(c.Init) {
+			model[i] = c.Init[i]
+		}
+		slots[i] = model[i].toVariant()
+	}
+	type kept struct {
+		v    *variants.Variant
+		was  val
+		step int
+	}
+	var held []kept
+	for i, s := range c.Steps {
+		if s.Set != nil {
+			slots[s.Slot%3].Assign(s.Set.toVariant())
+			model[s.Slot%3] = *s.Set
+		}
+		f := fc.FindByName(s.Name)
+		if f == nil {
+			return evid.F("function-not-found", "step %d: FindByName(%q) found nothing", i, s.Name)
+		}
+		var args []*variants.Variant
+		var argVals []val
+		for _, src := range s.Args {
+			switch {
+			case src >= 0 && src <= 2:
+				args, argVals = append(args, slots[src]), append(argVals, model[src])
+			case src >= 4 && len(held) > 0:
+				k := held[(src-4)%len(held)]
+				args, argVals = append(args, k.v), append(argVals, k.was)
+			default:
+				args, argVals = append(args, s.Fresh.toVariant()), append(argVals, s.Fresh)
+			}
+		}
+		desc := fmt.Sprintf("step %d of %d on one function collection and one manager (arguments kept and reassigned in place by the caller): %s(%v) safe=%v", i, len(c.Steps), s.Name, argVals, c.Safe)
+		lname := strings.ToLower(s.Name)
+		var v *variants.Variant
+		var err error
+		if g := guard(func() { v, err = f.Calculate(args, ops) }); g != nil {
+			g.Msg = desc + ": " + g.Msg
+			return g
+		}
+		if v == nil && err == nil {
+			return evid.F("neither-result-nor-error:"+lname, "%s returned (nil, nil)", desc)
+		}
+		if v != nil && err != nil {
+			return evid.F("both-result-and-error:"+lname, "%s returned a value and %v", desc, err)
+		}
+		for j := range args {
+			if !equalVal(fromVariant(args[j]), argVals[j]) {
+				return evid.F("argument-mutated:"+lname, "%s changed argument %d to %s", desc, j, fromVariant(args[j]))
+			}
+		}
+		want := refFunction(s.Name, argVals, c.Safe)
+		if want.Special == 0 {
+			switch {
+			case want.St == refMustError && err == nil:
+				return evid.F("history:value-for-invalid-call:"+lname, "%s = %s, but %s", desc, fromVariant(v), want.Why)
+			case want.St == refExact && err != nil:
+				return evid.F("history:error-for-valid-call:"+lname, "%s failed with %v, expected %s", desc, err, want.V)
+			case want.St == refExact && !equalVal(fromVariant(v), want.V):
+				return evid.F("history:wrong-value:"+lname, "%s = %s, expected %s", desc, fromVariant(v), want.V)
+			}
+		}
+		for _, k := range held {
+			if now := fromVariant(k.v); !equalVal(now, k.was) {
+				return evid.F("earlier-result-changed:"+lname, "%s: the result of step %d was %s and now is %s", desc, k.step, k.was, now)
+			}
+		}
+		if err == nil && v != nil {
+			own := true
+			for _, a := range append(append([]*variants.Variant{}, args...), slots...) {
+				if variantWithin(v, a) || variantWithin(a, v) {
+					own = false // If / Choose / Min / Max hand an argument back, Array keeps its arguments as elements: those follow their owner
+				}
+			}
+			for _, k := range held {
+				if variantWithin(v, k.v) || variantWithin(k.v, v) {
+					own = false
+				}
+			}
+			if own {
+				held = append(held, kept{v, fromVariant(v), i})
+			}
+		}
+	}
+	return nil
+}
+
+func init() { regReplay("C08.hist", checkC08Hist) }
+
+func TestC08_RapidHistories(t *testing.T) {
+	rec := evid.New("C08", "TestC08_RapidHistories", "C08.hist", "histories of 2..10 calls of deterministic standard functions on ONE function collection and ONE manager, arguments drawn from three objects the caller keeps and reassigns in place, fresh values and earlier results; each call against the function reference, results handed out earlier keep their value; non-trivial = an argument object reassigned in place is passed again; distinct by case")
+	defer finish(t, rec)
+	var names []string
+	for _, n := range c08Names {
+		switch strings.ToLower(n) {
+		case "ticks", "now", "rnd", "random", "date":
+		default:
+			names = append(names, n)
+		}
+	}
+	runRapid(t, pick(15000, 120000), 888, func(rt *rapid.T) {
+		c := c08HistCase{Safe: rapid.IntRange(0, 3).Draw(rt, "safe") == 0}
+		for i := 0; i < 3; i++ {
+			c.Init = append(c.Init, rapid.SampledFrom(c08SubPool).Draw(rt, "init"))
+		}
+		cur := append([]val{}, c.Init...)
+		nt := false
+		n := rapid.IntRange(2, 10).Draw(rt, "n")
+		for i := 0; i < n; i++ {
+			s := c08HStep{Name: rapid.SampledFrom(names).Draw(rt, "name"), Fresh: rapid.SampledFrom(c08SubPool).Draw(rt, "fresh"), Slot: rapid.IntRange(0, 2).Draw(rt, "slot")}
+			if rapid.IntRange(0, 2).Draw(rt, "set") == 0 {
+				v := cur[s.Slot]
+				switch v.K {
+				case "int":
+					v = vInt(int(v.I) + 1)
+				case "long":
+					v = vLong(v.I - 1)
+				case "double":
+					v = vDouble(v.f64() + 1.5)
+				case "float":
+					v = vFloat(v.f32() + 2)
+				case "string":
+					v = vString(v.S + "1")
+				default:
+					v = rapid.SampledFrom(c08SubPool).Draw(rt, "other")
+				}
+				s.Set, cur[s.Slot], nt = &v, v, true
+			}
+			argc := rapid.SampledFrom([]int{1, 1, 1, 2, 2, 3}).Draw(rt, "argc")
+			for k := 0; k < argc; k++ {
+				s.Args = append(s.Args, rapid.SampledFrom([]int{0, 0, 1, 1, 2, 3, 4, 5}).Draw(rt, "src"))
+			}
+			c.Steps = append(c.Steps, s)
+		}
+		rec.Case(jsonStr(c), nt, func() interface{} { return c }, fmt.Sprintf("safe:%v", c.Safe))
+		if f := checkC08Hist(c); f != nil {
+			if rec.Fail(f, c) {
+				rt.Fatalf("%v", f)
+			}
+		}
+	})
+}
